@@ -1,12 +1,19 @@
-"""C17 — wraps/check decorators hand over correct magnitudes and enforce dimensions."""
+"""C17 — wraps/check decorators hand over correct magnitudes and enforce dimensions.
+
+All rules below find their candidates by role (what a value holds, what a loop walks, what a function returns) and
+check them with shape.match / shape.resolve / facts; the names of local variables of pint are discovered, never
+assumed.  Names that are mentioned are parameters (`args`, `ret`, `strict`, `values`, `kw`, `sig`, `registry`,
+`original_units`, `values_by_name`, ...), attributes, functions and literals."""
 from __future__ import annotations
 
 import ast
 
-from ..flow import call_name, dotted, norm
+from .. import shape
+from ..flow import call_name, norm
 from ..index import AnalysisError, walk_local
-from ..lib import cfg_of, defs_of, edge_leads_only_to_raise, live, nodes_with, undominated, witness
-from .C01 import check_wrapper_order_rule
+from ..lib import cfg_of, defs_of, edge_leads_only_to_raise, witness
+from .C01 import (additions, check_wrapper_order_rule, closure_defs, conditional_in, enclosing_iteration, facts, find_expr,
+                  find_stores, is_signature, known, resolve, returned_def, rnorm, signature_walk)
 
 RH = "pint.registry_helpers"
 
@@ -44,226 +51,546 @@ def _paths(cfg, start_succ, stop):
     return out
 
 
+def _expr(text):
+    return ast.parse(text, mode="eval").body
+
+
+def _is_none_test(subject):
+    """atom predicate: `<subject> is None` (subject compared after resolving temporaries is the caller's business)"""
+    return lambda a: isinstance(a, ast.Compare) and len(a.ops) == 1 and isinstance(a.ops[0], ast.Is) and norm(a.comparators[0]) == "None" and norm(a.left) == subject
+
+
+def _loops_over(fn, name):
+    """the `for` loops of `fn` (own scope) that iterate directly over the variable `name`"""
+    return [l for l in walk_local(fn) if isinstance(l, ast.For) and isinstance(l.iter, ast.Name) and l.iter.id == name]
+
+
+# ---------------------------------------------------------------------------------------------------------------------
+def _arity_rule(ck, ix, f, q, what, declared):
+    """(a) decoration-time arity test.  Roles: the decorator = the nested function that `q` returns, the wrapper = the
+    nested function that the decorator returns, the wrapped function = the decorator's first parameter; the test = a
+    comparison of len(<declared specifications>) with another value, which must be the number of parameters of
+    signature(<wrapped function>)."""
+    d = returned_def(f, "decorator")
+    w = returned_def(d, "wrapper")
+    ck.analysed(d)
+    cfg = cfg_of(d)
+    func = d.node.args.args[0].arg
+
+    def declared_len(e):
+        b = shape.match("len(_D)", resolve(e, d.node))
+        return b is not None and declared(b["_D"], d)
+
+    def sig_count(e):
+        r = shape.deep(ix, d, e, d.node)
+        if not (isinstance(r, ast.Call) and call_name(r) == "len" and len(r.args) == 1 and not r.keywords):
+            return False
+        r = r.args[0]
+        while (isinstance(r, ast.Call) and call_name(r) in ("list", "tuple") and len(r.args) == 1) or (isinstance(r, ast.Call) and isinstance(r.func, ast.Attribute) and r.func.attr in ("keys", "values", "items") and not r.args):
+            r = r.args[0] if r.args else r.func.value           # a copy or a view has the same length
+        return any(shape.match(p, r) is not None for p in (f"signature({func}).parameters", f"inspect.signature({func}).parameters"))
+    others = {}
+
+    def count_test(a):
+        if isinstance(a, ast.Compare) and len(a.ops) == 1 and isinstance(a.ops[0], ast.Eq):
+            l, r = a.left, a.comparators[0]
+            o = r if declared_len(l) else l if declared_len(r) else None
+            if o is not None:
+                others[id(o)] = o
+                return True
+        return False
+    safe = sorted(set(shape.guard_edges(cfg, count_test, want=True)))
+    wr = [n.id for n in cfg.nodes if n.kind == "stmt" and n.ast is w.node]
+    if not wr:
+        raise AnalysisError(f"{q}: the statement creating the wrapper was not found")
+    ck.check(bool(safe), "G-DOM", f"{q}|parameter-count-tested", d.loc(), "declared and actual parameter counts are compared", f"{q}: the comparison of the number of declared {what} with the function's parameters is gone")
+    p = shape.reachable_without(cfg, wr, safe)
+    ck.check(bool(safe) and p is None, "G-DOM", f"{q}|count-test-at-decoration-time", d.loc(w.node), "the count test runs before the wrapper is created", "the wrapper is created without the parameter-count test", witness(cfg, p))
+    for (t, lab) in safe:
+        p = edge_leads_only_to_raise(cfg, t, shape.other(lab), also_forbid=wr)
+        ck.check(p is None, "G-DOM", f"{q}|count-mismatch-raises", d.loc(cfg.nodes[t].ast), "a mismatch raises TypeError", "a parameter-count mismatch does not raise", witness(cfg, p))
+    if others:
+        badc = [o for o in others.values() if not sig_count(o)]
+        ck.check(not badc, "G-PROV", f"{q}|count-from-signature", d.loc(badc[0]) if badc else d.loc(), "count taken from the function's signature",
+                 f"{q}: the number of declared {what} is compared with `{rnorm(badc[0], d.node) if badc else ''}`, which is not the number of parameters of signature({func})")
+
+
+def _one_per_declared(name, fi):
+    """`name` (a free variable of the decorator) holds one entry per declared specification: the parameter `args` itself
+    or a list comprehension / list(map(...)) over `args` without filter."""
+    if name == "args":
+        return True
+    for v, owner in closure_defs(fi, name):
+        if isinstance(v, ast.ListComp) and len(v.generators) == 1 and not v.generators[0].ifs and norm(v.generators[0].iter) == "args":
+            continue
+        if shape.match("list(map(_F, args))", v) is not None:
+            continue
+        return False
+    return bool(closure_defs(fi, name))
+
+
+# ---------------------------------------------------------------------------------------------------------------------
+def _converter_roles(f, c):
+    """Roles of the index sets by what the converter does with them.  The converter `c` walks three free variables,
+    which `f` initialises as empty sets, in three loops: the loop that calls _replace_units is the dependent pass, the
+    loop that looks at `strict` / Quantity / parse_expression is the unit pass, the remaining one the definition pass.
+    BYNAME, the local mapping of named values, is what the dependent pass hands to _replace_units (or, failing that,
+    the local dict the definition pass stores into).  Returns (BYNAME, {role: (set name, loop)})."""
+    local = defs_of(c)
+    loops = [l for l in walk_local(c.node) if isinstance(l, ast.For) and isinstance(l.iter, ast.Name) and l.iter.id not in local.params and l.iter.id not in local.defs
+             and any(norm(v) in ("set()", "set([])", "set(())") for v, _ in closure_defs(c, l.iter.id))]
+    roles = {}
+    for l in loops:
+        if find_expr(c.node, "_replace_units(*_R)", within=l):
+            kind = "dep"
+        elif any((isinstance(x, ast.Name) and x.id == "strict") or (isinstance(x, ast.Attribute) and x.attr in ("Quantity", "parse_expression")) for x in ast.walk(l)):
+            kind = "unit"
+        else:
+            kind = "defs"
+        if kind in roles:
+            raise AnalysisError("_converter: the definition / dependent / unit passes cannot be told apart")
+        roles[kind] = (l.iter.id, l)
+    if set(roles) != {"defs", "dep", "unit"}:
+        raise AnalysisError("_converter: the three passes were not found")
+    names = {b["_N"] for x, b in find_expr(c.node, "_replace_units(_S, _N)", within=roles["dep"][1]) if b["_N"] in local.defs and b["_N"] not in local.params}
+    if not names:
+        names = {b["_D"] for st, b in find_stores(c.node, "_D[_K]", within=roles["defs"][1]) if b["_D"] in local.defs and b["_D"] not in local.params}
+    if len(names) != 1:
+        raise AnalysisError("_converter: the mapping of named values was not found")
+    return names.pop(), roles
+
+
 def run(ck, ix, tier):
     # ------------------------------------------------------------ (a) decoration-time arity test
-    for q, what in (("wraps", "args"), ("check", "dimensions")):
-        f = ix.func(RH, q)
-        dec = [g for g in f.module.all_functions if g.name == "decorator" and g.parent is f]
-        if not dec:
-            raise AnalysisError(f"{q}: decorator not found")
-        d = dec[0]
-        ck.analysed(d)
-        cfg = cfg_of(d)
-        tests = [n.id for n in cfg.nodes if n.kind == "test" and norm(n.ast).replace(" ", "") == f"len({what})!=count_params"]
-        wr = [n.id for n in cfg.nodes if n.kind == "stmt" and isinstance(n.ast, ast.FunctionDef) and n.ast.name == "wrapper"]
-        ck.check(bool(tests), "G-DOM", f"{q}|parameter-count-tested", d.loc(), "declared and actual parameter counts are compared", f"{q}: the comparison of the number of declared {what} with the function's parameters is gone")
-        for w in wr:
-            p = undominated(cfg, [w], tests)
-            ck.check(p is None, "G-DOM", f"{q}|count-test-at-decoration-time", d.loc(cfg.nodes[w].ast), "the count test runs before the wrapper is created", "the wrapper is created without the parameter-count test", witness(cfg, p))
-        for t in tests:
-            p = edge_leads_only_to_raise(cfg, t, "t", also_forbid=wr)
-            ck.check(p is None, "G-DOM", f"{q}|count-mismatch-raises", d.loc(cfg.nodes[t].ast), "a mismatch raises TypeError", "a parameter-count mismatch does not raise", witness(cfg, p))
-        rs = defs_of(d).roots(ast.Name(id="count_params", ctx=ast.Load()))
-        ck.check("call:len" in rs and "call:signature" in rs and "func" in rs, "G-PROV", f"{q}|count-from-signature", d.loc(), "count taken from the function's signature", f"{q}: count_params is no longer the number of parameters of signature(func) (derives from {sorted(rs)})")
+    _arity_rule(ck, ix, ix.func(RH, "wraps"), "wraps", "args", lambda n, d: n == "args")
+    _arity_rule(ck, ix, ix.func(RH, "check"), "check", "dimensions", _one_per_declared)
 
     # ------------------------------------------------------------ (b) classification loop
     f = ix.func(RH, "_parse_wrap_args")
     ck.analysed(f)
     cfg = cfg_of(f)
-    loops = [n for n in cfg.nodes if n.kind == "for" and "enumerate(args_as_uc)" in norm(n.ast)]
+    c = returned_def(f, "converter")
+    ck.analysed(c)
+    # SPECS: the name bound to the parsed specifications (built from _to_units_container calls)
+    built = [(st, b) for st, b in find_stores(f.node, "_S") if isinstance(st, (ast.Assign, ast.AnnAssign)) and st.value is not None
+             and any(isinstance(x, ast.Call) and call_name(x) == "_to_units_container" for x in ast.walk(st.value))]
+    ck.floor("G-PROV", len(built), 1, "list of specifications parsed with _to_units_container in _parse_wrap_args")
+    SPECS = built[0][1]["_S"]
+    ck.check(len(built) == 1 and shape.match("[_to_units_container(_A, registry) for _A in args]", built[0][0].value) is not None, "G-PROV", "_parse_wrap_args|specs-parsed-in-order", f.loc(built[0][0]), "specifications parsed positionally", "the positional parsing of specifications changed")
+    # the classification loop: `for IDX, (SPEC, ISREF) in enumerate(SPECS)`
+    loops = [n for n in cfg.nodes if n.kind == "for" and any(shape.match(f"enumerate({SPECS})", e_) is not None for e_ in (n.ast, resolve(n.ast, f.node)))]
     if len(loops) != 1:
         raise AnalysisError("_parse_wrap_args: classification loop not found")
     lp = loops[0]
+    m = shape.match("(_I, (_S, _R))", lp.stmt.target)
+    if m is None:
+        raise AnalysisError("_parse_wrap_args: the classification loop does not unpack (index, (specification, is_reference))")
+    IDX, SPEC, ISREF = m["_I"], m["_S"], m["_R"]
+    BYNAME, roles = _converter_roles(f, c)
+    sets = {roles[k][0]: k for k in roles}
+    add_sites = [(x, b["_T"]) for x, b in find_expr(f.node, f"_T.add({IDX})", within=lp.stmt) if b["_T"] in sets]
     body_first = [v for (v, lab) in cfg.succ[lp.id] if lab == "t"]
-    from .. import shape
-    tgt = lp.stmt.target if hasattr(lp, "stmt") and isinstance(lp.stmt, ast.For) else None
-    spec_var = tgt.elts[1].elts[0].id if isinstance(tgt, ast.Tuple) and len(tgt.elts) == 2 and isinstance(tgt.elts[1], ast.Tuple) and isinstance(tgt.elts[1].elts[0], ast.Name) else "arg"
-    none_edges = set(shape.guard_edges(cfg, lambda a: isinstance(a, ast.Compare) and isinstance(a.ops[0], ast.Is) and norm(a.left) == spec_var and norm(a.comparators[0]) == "None"))
-    sets = ("defs_args_ndx", "dependent_args_ndx", "unit_args_ndx")
+    none_edges = set(shape.guard_edges(cfg, _is_none_test(SPEC)))
+    site_of = {id(getattr(x, "_parent", None)): t for x, t in add_sites}
     bad = []
     n_paths = 0
     for path in _paths(cfg, body_first, lp.id):
         n_paths += 1
-        adds = []
-        none_path = False
-        for nid in path:
-            a = cfg.nodes[nid].ast
-            if cfg.nodes[nid].kind == "stmt" and isinstance(a, ast.Expr) and isinstance(a.value, ast.Call) and call_name(a.value) == "add" and dotted(a.value.func.value) in sets and norm(a.value.args[0]) == "ndx":
-                adds.append(dotted(a.value.func.value))
-            if cfg.nodes[nid].kind == "stmt" and isinstance(a, ast.Continue):
-                none_path = True
-        # the None path is the true edge of `arg is None`
+        adds = [site_of[id(cfg.nodes[nid].ast)] for nid in path if cfg.nodes[nid].kind == "stmt" and id(cfg.nodes[nid].ast) in site_of]
         took_none = any((nid, lab) in none_edges for i, nid in enumerate(path) for (v, lab) in cfg.succ[nid] if i + 1 < len(path) and v == path[i + 1])
         if took_none:
             if adds:
                 bad.append(("None specification is classified", adds))
         elif len(adds) != 1:
             bad.append((f"a non-None specification is added to {len(adds)} index sets", adds))
+    # unit specifications and references must not be mixed up: the unit set is filled where the reference flag is known
+    # to be false, the other two where it is known to be true
+    is_ref = lambda a: isinstance(a, ast.Name) and a.id == ISREF
+    for x, t in add_sites:
+        if not shape.holds_at(x, f.node, is_ref, sets[t] != "unit"):
+            bad.append((f"index added to the {sets[t]} set although the specification is {'a' if sets[t] == 'unit' else 'not a'} reference", [t]))
     ck.extra["classification_paths"] = n_paths
     ck.check(not bad and n_paths >= 4, "G-EXH", "_parse_wrap_args|every-index-classified-exactly-once", f.loc(lp.ast), f"{n_paths} paths: every non-None index lands in exactly one set, None in none",
              f"classification loop: {bad[:2]} (an argument would be converted twice, or not at all)")
-    tests = [n for n in cfg.nodes if n.kind == "test" and "in defs_args" in norm(n.ast)]
-    # the single (name, exponent) pair of a one-name reference, whatever the locals are called
-    pair = [a for a in walk_local(f.node) if isinstance(a, ast.Assign) and isinstance(a.targets[0], (ast.List, ast.Tuple)) and len(a.targets[0].elts) == 1 and isinstance(a.targets[0].elts[0], ast.Tuple)
-            and len(a.targets[0].elts[0].elts) == 2 and norm(a.value) == f"{spec_var}.items()"]
-    kname, vname = (pair[0].targets[0].elts[0].elts[0].id, pair[0].targets[0].elts[0].elts[1].id) if pair else ("key", "value")
-    ok = False
-    if len(tests) == 1:
-        facts = {(norm(p_), truth) for p_, truth in shape.conjuncts(tests[0].ast, "t")}
-        ok = facts == {(f"{vname} == 1", True), (f"{kname} in defs_args", False)}
-    ck.check(ok, "G-EXH", "_parse_wrap_args|definition-iff-exponent-1-and-new-name", f.loc(tests[0].ast) if tests else f.loc(), "a reference defines a name only with exponent 1 and when the name is new",
-             f"`{norm(tests[0].ast) if tests else '?'}`: '=A**2' listed before '=A' would be taken as the definition of A")
-    src = norm(f.node)
-    ck.check(("<= defs_args" in src or "issubset(defs_args)" in src) and "raise ValueError" in src, "G-DOM", "_parse_wrap_args|dependent-names-must-be-defined", f.loc(), "dependent specifications using undefined names are rejected", "the check that dependent specifications only use defined names is gone")
-    ck.check("args_as_uc = [_to_units_container(arg, registry) for arg in args]" in src, "G-PROV", "_parse_wrap_args|specs-parsed-in-order", f.loc(), "specifications parsed positionally", "the positional parsing of specifications changed")
+    # a reference is a definition iff it is a single name with exponent 1 that was not defined before: wherever an
+    # index enters the definition set, `EXPONENT == 1` and `NAME not in DEFINED` are known for the single
+    # (NAME, EXPONENT) item of the specification, and NAME is recorded in DEFINED
+    DEFS = roles["defs"][0]
+    pairs = [b for st, b in find_stores(f.node, "[(_K, _V)]", within=lp.stmt) + find_stores(f.node, "((_K, _V),)", within=lp.stmt) + find_stores(f.node, "(_K, _V)", within=lp.stmt)
+             if rnorm(st.value, f.node) in (f"{SPEC}.items()", f"next(iter({SPEC}.items()))", f"list({SPEC}.items())[0]", f"tuple({SPEC}.items())[0]")]
+    def_sites = [x for x, t in add_sites if t == DEFS]
+    ck.floor("G-EXH", len(def_sites), 1, "places where an index enters the definition set in _parse_wrap_args")
+    DEFINED = None
+    for x in def_sites:
+        why = None
+        new = known(x, f.node, "_K in _D", False)
+        if not pairs:
+            why = "the exponent of the single referenced name is not examined"
+        elif new is None:
+            why = "the name is not tested against the names defined so far"
+        else:
+            DEFINED = new["_D"]
+            pr = [b for b in pairs if b["_K"] == new["_K"]]
+            if not pr:
+                why = f"`{new['_K']}` is not the name of the specification's single item"
+            elif not any(known(x, f.node, pat, True) is not None for pat in (f"{pr[0]['_V']} == 1", f"1 == {pr[0]['_V']}")):
+                why = f"the exponent `{pr[0]['_V']}` is not required to be 1"
+            elif not any(facts_equal(x, y, f.node) for y, _ in find_expr(f.node, f"{DEFINED}.add({new['_K']})", within=lp.stmt)):
+                why = f"the defined name is not recorded in `{DEFINED}`"
+        cond = " and ".join((norm(a) if t else f"not ({norm(a)})") for a, t in shape.facts_at(x, lp.stmt))
+        ck.check(why is None, "G-EXH", "_parse_wrap_args|definition-iff-exponent-1-and-new-name", f.loc(x), "a reference defines a name only with exponent 1 and when the name is new",
+                 f"`{cond}`: {why}: '=A**2' listed before '=A' would be taken as the definition of A")
+    # dependent specifications only use defined names: a ValueError is raised where `set(names of SPECS[i][0]) <= DEFINED` fails
+    subset = [f"set(_A.keys()) <= {DEFINED or '_D'}", f"set(_A) <= {DEFINED or '_D'}", f"_A.keys() <= {DEFINED or '_D'}", f"set(_A.keys()).issubset({DEFINED or '_D'})", f"set(_A).issubset({DEFINED or '_D'})",
+              f"{DEFINED or '_D'} >= set(_A.keys())", f"{DEFINED or '_D'} >= set(_A)", f"{DEFINED or '_D'}.issuperset(_A.keys())", f"{DEFINED or '_D'}.issuperset(_A)"]
+    okd = False
+    for r in [r for r in walk_local(f.node) if isinstance(r, ast.Raise) and r.exc is not None and "ValueError" in norm(r.exc) and not shape.dead(r, f.node)]:
+        it = enclosing_iteration(r, f.node)
+        if it is None or norm(it[1]) != roles["dep"][0] or not isinstance(it[0], ast.Name):
+            continue
+        okd = okd or any(known(r, f.node, pat, False, where=lambda b, R: R("_A") == f"{SPECS}[{it[0].id}][0]") is not None for pat in subset)
+    ck.check(okd, "G-DOM", "_parse_wrap_args|dependent-names-must-be-defined", f.loc(), "dependent specifications using undefined names are rejected", "the check that dependent specifications only use defined names is gone")
+
+    # ------------------------------------------------------------ _to_units_container: '=X' is a reference to X
     f2 = ix.func(RH, "_to_units_container")
-    ck.check("if isinstance(a, str) and '=' in a" in norm(f2.node) and "a.split('=', 1)[1]" in norm(f2.node), "G-PROV", "_to_units_container|reference-is-after-equals", f2.loc(), "'=X' denotes a reference to X", "_to_units_container no longer treats '=X' as a reference to X")
+    ck.analysed(f2)
+    # decided on the facts known at each return, as a truth table over the two atoms (is a string / contains '='):
+    # a return tagged True is reached only when both hold, every other return only when they do not both hold
+    IS_STR, HAS_EQ = "isinstance(a, str)", "'=' in a"
+    possible = lambda r: [(i_, e_) for i_ in (True, False) for e_ in (True, False) if _consistent(facts(r, f2.node), {IS_STR: i_, HAS_EQ: e_})]
+    tagged = [(r, shape.unalias(r.value, f2.node)) for r in shape.returns_of(f2.node)]
+    tagged = [(r, v) for r, v in tagged if isinstance(v, ast.Tuple) and len(v.elts) == 2]
+    refs = [(r, v) for r, v in tagged if isinstance(shape.unalias(v.elts[1], f2.node), ast.Constant) and shape.unalias(v.elts[1], f2.node).value is True]
+    plain = [(r, v) for r, v in tagged if (r, v) not in refs]
+    after = ("to_units_container(a.split('=', 1)[1], *_R)", "to_units_container(a.split('=', 1)[-1], *_R)", "to_units_container(a.partition('=')[2], *_R)", "to_units_container(a.partition('=')[-1], *_R)")
+    okr = bool(refs) and all(possible(r) == [(True, True)] and any(shape.match(p_, resolve(v.elts[0], f2.node)) is not None for p_ in after) for r, v in refs)
+    okp = bool(plain) and all((True, True) not in possible(r) and isinstance(shape.unalias(v.elts[1], f2.node), ast.Constant) and shape.unalias(v.elts[1], f2.node).value is False
+                              and shape.match("to_units_container(a, registry)", resolve(v.elts[0], f2.node)) is not None for r, v in plain)
+    ck.check(okr and okp, "G-PROV", "_to_units_container|reference-is-after-equals", f2.loc(), "'=X' denotes a reference to X", "_to_units_container no longer treats '=X' as a reference to X")
+
+    # ------------------------------------------------------------ _replace_units: product of named values ** exponent
     f3 = ix.func(RH, "_replace_units")
-    ck.check("q = q * values_by_name[arg_name] ** exponent" in norm(f3.node), "G-PROV", "_replace_units|product-of-named-values-to-exponents", f3.loc(), "derived units = product of named values ** exponent", "_replace_units no longer multiplies the named values raised to their exponents")
+    ck.analysed(f3)
+    okp = False
+    for pw, b in find_expr(f3.node, "values_by_name[_N] ** _E"):
+        it = enclosing_iteration(pw, f3.node)
+        if it is None:
+            continue
+        tgt, itx = it[0], rnorm(it[1], f3.node)
+        per_item = (itx == "original_units.items()" and shape.match("(_N, _E)", tgt) == {"_N": b["_N"], "_E": b["_E"]}) or \
+                   (itx in ("original_units", "original_units.keys()") and norm(tgt) == b["_N"] and b["_E"] == f"original_units[{b['_N']}]")
+        par = getattr(pw, "_parent", None)
+        acc = None
+        if isinstance(par, ast.AugAssign) and isinstance(par.op, ast.Mult) and par.value is pw and isinstance(par.target, ast.Name):
+            acc = par.target.id
+        elif isinstance(par, ast.BinOp) and isinstance(par.op, ast.Mult) and isinstance(getattr(par, "_parent", None), ast.Assign):
+            o = par.left if par.right is pw else par.right
+            t_ = par._parent.targets[0]
+            if isinstance(o, ast.Name) and isinstance(t_, ast.Name) and o.id == t_.id:
+                acc = o.id
+        returned = acc is not None and any(acc in {n.id for n in ast.walk(shape.unalias(r.value, f3.node)) if isinstance(n, ast.Name)} for r in shape.returns_of(f3.node))
+        okp = okp or (per_item and returned)
+    ck.check(okp, "G-PROV", "_replace_units|product-of-named-values-to-exponents", f3.loc(), "derived units = product of named values ** exponent", "_replace_units no longer multiplies the named values raised to their exponents")
 
     # ------------------------------------------------------------ (c) _converter
-    conv = [g for g in f.module.all_functions if g.name == "_converter" and g.parent is f]
-    if not conv:
-        raise AnalysisError("_converter not found")
-    c = conv[0]
-    ck.analysed(c)
-    loops = {norm(l.iter): l for l in walk_local(c.node) if isinstance(l, ast.For)}
-    l1, l2, l3 = loops.get("defs_args_ndx"), loops.get("dependent_args_ndx"), loops.get("unit_args_ndx")
-    if not (l1 and l2 and l3):
-        raise AnalysisError("_converter: the three passes were not found")
-    s1 = norm(l1)
-    ck.check("values_by_name[args_as_uc[ndx][0]] = value" in s1 and "values[ndx] = getattr(value, '_magnitude', value)" in s1, "G-PROV", "_converter|first-pass-records-and-strips", c.loc(l1), "named values recorded, magnitudes handed over", "the first pass no longer records the named value and hands over its magnitude")
-    # dependent pass: unconditional conversion
-    skips = [x for x in ast.walk(l2) if isinstance(x, (ast.Continue, ast.Break)) or (isinstance(x, ast.If) and not isinstance(x, ast.Assert))]
-    calls = [x for x in ast.walk(l2) if isinstance(x, ast.Call) and call_name(x) == "_convert"]
-    ck.check(not skips, "G-DOM", "_converter|dependent-pass-converts-every-value", c.loc(skips[0]) if skips else c.loc(l2), "every dependent argument is converted (bare numbers count as dimensionless)",
-             f"`{norm(skips[0])[:60] if skips else ''}`: some dependent arguments skip the conversion: a bare number is passed through although the referenced argument is dimensional")
-    ok = len(calls) == 1 and [norm(a) for a in calls[0].args] == ["getattr(value, '_magnitude', value)", "getattr(value, '_units', UnitsContainer({}))", "_replace_units(args_as_uc[ndx][0], values_by_name)"] and norm(calls[0].func) == "ureg._convert"
+    l1, l2, l3 = roles["defs"][1], roles["dep"][1], roles["unit"][1]
+    i1, i2, i3 = (norm(l.target) for l in (l1, l2, l3))
+    # first pass: BYNAME[SPECS[i][0]] = values[i]; values[i] = getattr(values[i], '_magnitude', values[i])
+    rec = [st for st, b in find_stores(c.node, f"{BYNAME}[{SPECS}[{i1}][0]]", within=l1) if isinstance(st, ast.Assign) and rnorm(st.value, c.node) == f"values[{i1}]"]
+    strip = [st for st, b in find_stores(c.node, f"values[{i1}]", within=l1) if isinstance(st, ast.Assign)
+             and shape.match("getattr(_X, '_magnitude', _X)", resolve(st.value, c.node)) == {"_X": f"values[{i1}]"}]
+    ordered = bool(rec) and bool(strip) and (isinstance(rec[0].value, ast.Name) or rec[0].lineno < strip[0].lineno)
+    ck.check(ordered and conditional_in(rec[0], l1) is None and conditional_in(strip[0], l1) is None, "G-PROV", "_converter|first-pass-records-and-strips", c.loc(l1), "named values recorded, magnitudes handed over", "the first pass no longer records the named value and hands over its magnitude")
+    # dependent pass: unconditional conversion to the derived units, stored back
+    dstores = [st for st, b in find_stores(c.node, f"values[{i2}]", within=l2) if isinstance(st, ast.Assign)]
+    conv2 = [st for st in dstores if isinstance(st.value, ast.Call) and shape.match("ureg._convert(*_R, **_K)", st.value) is not None]
+    skip = next((s_ for s_ in (conditional_in(st, l2) for st in conv2) if s_ is not None), None) if conv2 else None
+    if not conv2:
+        skip = next((x for x in ast.walk(l2) if isinstance(x, (ast.Continue, ast.Break, ast.If))), None)
+    ck.check(bool(conv2) and skip is None, "G-DOM", "_converter|dependent-pass-converts-every-value", c.loc(skip) if skip is not None else c.loc(l2), "every dependent argument is converted (bare numbers count as dimensionless)",
+             f"`{norm(skip)[:60] if skip is not None else ''}`: some dependent arguments skip the conversion: a bare number is passed through although the referenced argument is dimensional")
+    ok = len(dstores) == 1 and len(conv2) == 1
+    if ok:
+        a_ = conv2[0].value
+        r_ = [resolve(x, c.node) for x in a_.args]
+        ok = len(r_) == 3 and not a_.keywords and shape.match("getattr(_X, '_magnitude', _X)", r_[0]) == {"_X": f"values[{i2}]"} \
+            and shape.match("getattr(_X, '_units', UnitsContainer({}))", r_[1]) == {"_X": f"values[{i2}]"} and norm(r_[2]) == f"_replace_units({SPECS}[{i2}][0], {BYNAME})"
     ck.check(ok, "G-PROV", "_converter|dependent-pass-converts-to-derived-units", c.loc(l2), "converted from the value's own units (dimensionless for bare numbers) to the units derived from the named values", "the dependent pass no longer converts (magnitude, units-or-dimensionless) to _replace_units(spec, values_by_name)")
     # unit pass
-    cfgc = cfg_of(c)
-    from .. import shape
-    idx = l3.target.id if isinstance(l3.target, ast.Name) else "ndx"
-    is_qty = lambda a: isinstance(a, ast.Call) and call_name(a) == "isinstance" and len(a.args) == 2 and "Quantity" in norm(a.args[1])
-    is_str = lambda a: isinstance(a, ast.Call) and call_name(a) == "isinstance" and len(a.args) == 2 and norm(a.args[1]) == "str"
+    idx = i3
+    cur = lambda e: rnorm(e, c.node) == f"values[{idx}]"
+    is_qty = lambda a: isinstance(a, ast.Call) and call_name(a) == "isinstance" and len(a.args) == 2 and "Quantity" in norm(a.args[1]) and cur(a.args[0])
+    is_str = lambda a: isinstance(a, ast.Call) and call_name(a) == "isinstance" and len(a.args) == 2 and norm(a.args[1]) == "str" and cur(a.args[0])
     is_strict = lambda a: isinstance(a, ast.Name) and a.id == "strict"
     convs = [x for x in ast.walk(l3) if isinstance(x, ast.Call) and call_name(x) == "_convert" and norm(x.func) == "ureg._convert"]
     okc = len(convs) >= 1 and all(len(x.args) == 3 and not x.keywords for x in convs)   # in particular no inplace=True: the caller's quantity must not be rescaled
     convs = [x for x in convs if len(x.args) == 3]
+    cdefs_ = defs_of(c)
+
+    def sources(e):
+        """[(value, site)]: what the converted object `e` can be and where that is decided - `e` itself, or, for a name
+        assigned on several branches of this pass (quantity = values[i] / quantity = parse(values[i])), every assignment"""
+        r = resolve(e, c.node)
+        if isinstance(r, ast.Name) and r.id not in cdefs_.params and len(cdefs_.defs.get(r.id, [])) > 1 and all(k_ == "assign" and any(st_ is y for y in ast.walk(l3)) for _, k_, st_ in cdefs_.defs[r.id]):
+            return [(resolve(v_, c.node), st_) for v_, _, st_ in cdefs_.defs[r.id]]
+        return [(r, e)]
+    from_qty = False
     for x in convs:
-        m_, u_, d_ = (shape.resolve(a_, c.node) for a_ in x.args)
-        src_ok = isinstance(m_, ast.Attribute) and isinstance(u_, ast.Attribute) and m_.attr == "_magnitude" and u_.attr == "_units" and norm(m_.value) == norm(u_.value) \
-            and norm(m_.value) in (f"values[{idx}]", f"ureg.parse_expression(values[{idx}])")
-        okc = okc and src_ok and norm(d_) == f"args_as_uc[{idx}][0]"
+        m_, u_, d_ = x.args
+        same = isinstance(m_, ast.Attribute) or isinstance(resolve(m_, c.node), ast.Attribute)
+        m_, u_ = (a_ if isinstance(a_, ast.Attribute) else resolve(a_, c.node) for a_ in (m_, u_))
+        src_ok = same and isinstance(m_, ast.Attribute) and isinstance(u_, ast.Attribute) and m_.attr == "_magnitude" and u_.attr == "_units" and rnorm(m_.value, c.node) == rnorm(u_.value, c.node)
+        for v_, site in (sources(m_.value) if src_ok else []):
+            if norm(v_) == f"values[{idx}]":
+                src_ok = src_ok and shape.holds_at(site if site is not m_.value else x, c.node, is_qty, True)     # only a Quantity has ._magnitude / ._units
+                from_qty = from_qty or src_ok
+            else:
+                src_ok = src_ok and norm(v_) == f"ureg.parse_expression(values[{idx}])"
+        okc = okc and src_ok and rnorm(d_, c.node) == f"{SPECS}[{idx}][0]"
         par = getattr(x, "_parent", None)
         okc = okc and isinstance(par, ast.Assign) and norm(par.targets[0]) == f"values[{idx}]"
-    ck.check(okc and any(shape.holds_at(x, c.node, is_qty, True) for x in convs), "G-PROV", "_converter|quantities-converted-to-declared-units", c.loc(l3), "quantities (and parsed strings) converted to the declared units through ureg._convert and stored back",
+    ck.check(okc and from_qty, "G-PROV", "_converter|quantities-converted-to-declared-units", c.loc(l3), "quantities (and parsed strings) converted to the declared units through ureg._convert and stored back",
              "quantities are no longer converted with ureg._convert(own magnitude, own units, declared units of this argument) and stored back in place")
     raises = [r for r in ast.walk(l3) if isinstance(r, ast.Raise) and not shape.dead(r, c.node)]
     okr = len(raises) >= 1 and all("ValueError" in norm(r) and shape.holds_at(r, c.node, is_strict, True) and shape.holds_at(r, c.node, is_qty, False) and shape.holds_at(r, c.node, is_str, False) for r in raises)
     writes = [a_ for a_ in ast.walk(l3) if isinstance(a_, ast.Assign) and norm(a_.targets[0]) == f"values[{idx}]"]
-    okw = all(shape.holds_at(a_, c.node, is_qty, True) or (shape.holds_at(a_, c.node, is_strict, True) and shape.holds_at(a_, c.node, is_qty, False)) for a_ in writes)
+    # a value is only replaced where it is known to be a Quantity or the mode to be strict - at the write itself, or on
+    # every path that leads to it (a write shared by the Quantity branch and the parsed-string branch)
+    cfgc = cfg_of(c)
+    gated = shape.guard_edges(cfgc, is_qty, want=True) + shape.guard_edges(cfgc, is_strict, want=True)
+    okw = all(shape.holds_at(a_, c.node, is_qty, True) or (shape.holds_at(a_, c.node, is_strict, True) and shape.holds_at(a_, c.node, is_qty, False))
+              or (bool(gated) and shape.reachable_without(cfgc, [n.id for n in cfgc.nodes if n.ast is a_], gated) is None) for a_ in writes)
     ck.check(okr and okw, "G-DOM", "_converter|strict-refuses-bare-numbers-nonstrict-passes", c.loc(l3), "strict: non-quantity, non-string values raise; non-strict: untouched",
              "the strict/non-strict handling of bare values changed (strict must raise for values that are neither Quantity nor str, non-strict must leave bare values alone)")
     parses = [x for x in ast.walk(l3) if isinstance(x, ast.Call) and call_name(x) == "parse_expression"]
     ck.check(len(parses) >= 1 and all(shape.holds_at(x, c.node, is_strict, True) and shape.holds_at(x, c.node, is_qty, False) for x in parses), "G-DOM", "_converter|strict-strings-parsed-others-raise", c.loc(l3), "in strict mode strings are parsed", "strings are no longer parsed only in strict mode for non-quantities")
-    # keyword/default values are appended to `values` and written back in signature order, for the parameters beyond the positional ones
-    dfc = defs_of(c)
-    app = [x for x in walk_local(c.node) if isinstance(x, ast.Call) and call_name(x) == "append" and norm(x.func.value) == "values" and x.args and isinstance(x.args[0], ast.Subscript) and norm(x.args[0].value) == "kw"]
-    back = [a_ for a_ in walk_local(c.node) if isinstance(a_, ast.Assign) and isinstance(a_.targets[0], ast.Subscript) and norm(a_.targets[0].value) == "kw" and isinstance(a_.value, ast.Subscript) and norm(a_.value.value) == "values"]
-    def from_sig(node):
-        cur = node
-        while cur is not None and not isinstance(cur, ast.For):
-            cur = getattr(cur, "_parent", None)
-        if cur is None:
-            return False
-        r_ = dfc.roots(cur.iter) | {norm(cur.iter)}
-        whole = " ".join(sorted(r_)) + " " + norm(cur)
-        return "sig.parameters" in whole and "len_initial_values" in whole
-    ok = len(app) == 1 and len(back) == 1 and from_sig(app[0]) and from_sig(back[0]) and norm(app[0].args[0].slice) == norm(back[0].targets[0].slice)
+    # keyword/default values are appended to `values` and written back in signature order, for the parameters beyond the
+    # positional ones; the positional count is taken on entry, before `values` grows
+    npos = "len(values)"
+    app = additions(c.node, "values")
+    back = [st for st, b in find_stores(c.node, "kw[_P]") if isinstance(st, ast.Assign)]
+    ok = len(app) == 1 and len(back) == 1 and shape.match("kw[_P]", app[0]) is not None
+    if ok:
+        sa_, sb_ = signature_walk(app[0], c, npos), signature_walk(back[0].value, c, npos)
+        ok = sa_ is not None and sb_ is not None and sa_[2] and sb_[2] and norm(app[0].slice) == sa_[0] and norm(back[0].targets[0].slice) == sb_[0] \
+            and rnorm(back[0].value, c.node) in [f"values[{i_}]" for i_ in sb_[1]]
+        # `len(values)` must be read before anything is appended: only through a name assigned at the top of the function
+        grow = min([x.lineno for x in app] + [l.lineno for l in (l1, l2, l3)])
+        ok = ok and all(getattr(getattr(x, "_parent", None), "lineno", grow) < grow and getattr(getattr(x, "_parent", None), "_parent", None) is c.node for x, _ in find_expr(c.node, "len(values)"))
     ck.check(ok, "G-PROV", "_converter|keyword-values-packed-and-unpacked-in-signature-order", c.loc(), "keyword/default values appended and written back by walking sig.parameters beyond the positional ones", "keyword/default values are no longer packed/unpacked by signature position")
-    ck.check("return (values[:len_initial_values], kw, values_by_name)" in norm(c.node), "G-PROV", "_converter|returns-positional-keywords-named", c.loc(), "returns (positional, keywords, named values)", "the converter's return triple changed")
+    rets = [shape.unalias(r.value, c.node) for r in shape.returns_of(c.node)]
+    okt = bool(rets) and all(isinstance(v, ast.Tuple) and len(v.elts) == 3 and rnorm(v.elts[0], c.node) == f"values[:{npos}]" and norm(v.elts[1]) == "kw" and norm(v.elts[2]) == BYNAME for v in rets)
+    ck.check(okt, "G-PROV", "_converter|returns-positional-keywords-named", c.loc(), "returns (positional, keywords, named values)", "the converter's return triple changed")
+
+    # ------------------------------------------------------------ _apply_defaults(sig, args, kwargs)
     fa = ix.func(RH, "_apply_defaults")
     ck.analysed(fa)
-    src = norm(fa.node)
-    ck.check("i >= len(args) and param.default != Parameter.empty and (param.name not in kwargs)" in src and "kwargs[param.name] = param.default" in src, "G-PROV", "_apply_defaults|only-absent-parameters", fa.loc(), "defaults fill only parameters that were not passed", "_apply_defaults no longer restricts itself to absent parameters with a default")
+    fills = [(st, b) for st, b in find_stores(fa.node, "kwargs[_K]") if isinstance(st, ast.Assign)]
+    ck.floor("G-PROV", len(fills), 1, "stores into kwargs in _apply_defaults")
+    okf = True
+    for st, b in fills:
+        it = enclosing_iteration(st, fa.node)
+        e = resolve(it[1], fa.node) if it else None
+        m = shape.match("enumerate(_X)", e) if e is not None else None
+        t2 = shape.match("(_I, _P)", it[0]) if m is not None else None
+        if t2 is None:
+            okf = False
+            continue
+        I = t2["_I"]
+        if m["_X"] == "sig.parameters.values()":
+            P, K = t2["_P"], f"{t2['_P']}.name"
+        elif m["_X"] == "sig.parameters.items()" and shape.match("(_K, _P)", _expr(t2["_P"])) is not None:
+            kp = shape.match("(_K, _P)", _expr(t2["_P"]))
+            P, K = kp["_P"], kp["_K"]
+        elif m["_X"] in ("sig.parameters", "sig.parameters.keys()"):
+            P, K = f"sig.parameters[{t2['_P']}]", t2["_P"]
+        else:
+            okf = False
+            continue
+        key_ok = b["_K"] in (K, f"{P}.name") and rnorm(st.value, fa.node) == f"{P}.default"
+        absent = any(known(st, fa.node, pat, tr) is not None for pat, tr in ((f"{I} >= len(args)", True), (f"len(args) <= {I}", True), (f"{I} < len(args)", False), (f"len(args) > {I}", False)))
+        has_default = any(known(st, fa.node, pat, False) is not None for pat in (f"{P}.default == Parameter.empty", f"{P}.default is Parameter.empty", f"Parameter.empty == {P}.default", f"{P}.default == {P}.empty", f"{P}.default is {P}.empty"))
+        not_passed = any(known(st, fa.node, f"{k_} in kwargs", False) is not None for k_ in (K, f"{P}.name"))
+        okf = okf and key_ok and absent and has_default and not_passed
+    ck.check(okf, "G-PROV", "_apply_defaults|only-absent-parameters", fa.loc(), "defaults fill only parameters that were not passed", "_apply_defaults no longer restricts itself to absent parameters with a default")
 
     # ------------------------------------------------------------ wrappers
     f = ix.func(RH, "wraps")
-    w = [g for g in f.module.all_functions if g.name == "wrapper" and g.qualname.startswith(f.qualname)]
-    for g in w:
-        ck.analysed(g)
-        src = norm(g.node)
-        ck.check("values, kw = _apply_defaults(sig, values, kw)" in src and "converter(ureg, sig, values, kw, strict)" in src and "result = func(*new_values, **new_kw)" in src, "G-PROV", "wraps.wrapper|defaults-convert-call", g.loc(), "defaults -> conversion -> call with the converted values", "the wraps wrapper no longer applies defaults, converts and calls with the converted values")
-        from .. import shape as _sh
-        # scalar return: `ret` is the (units, is_reference) pair; None units -> bare result, else Quantity(result, units or derived units)
-        qs = [x for x in walk_local(g.node) if isinstance(x, ast.Call) and norm(x.func) == "ureg.Quantity" and len(x.args) == 2 and norm(x.args[0]) == "result"]
-        unit_is_none = lambda a: isinstance(a, ast.Compare) and isinstance(a.ops[0], ast.Is) and norm(a.comparators[0]) == "None" and _sh.rnorm(a.left, g.node) in ("ret[0]",)
-        bare = [r for r in _sh.returns_of(g.node) if norm(r.value) == "result" and _sh.holds_at(r, g.node, unit_is_none, True)]
-        ck.check(len(bare) >= 1 and all(_sh.holds_at(x, g.node, unit_is_none, False) for x in qs), "G-PROV", "wraps.wrapper|none-return-spec-passes-through", g.loc(), "ret=None returns the bare result", "a None return specification no longer passes the result through (or a result is wrapped although the specification is None)")
-        okq = len(qs) == 1
-        if okq:
-            u_ = _sh.resolve(qs[0].args[1], g.node)
-            okq = isinstance(u_, ast.IfExp) and norm(u_.test) == "ret[1]" and _sh.match("_replace_units(ret[0], _V)", u_.body) is not None and "values_by_name" in norm(qs[0]) + norm(g.node) and norm(u_.orelse) == "ret[0]"
-        ck.check(okq, "G-PROV", "wraps.wrapper|result-rewrapped-in-declared-or-derived-units", g.loc(qs[0]) if qs else g.loc(), "result wrapped in declared (or derived) units", "the result is no longer re-wrapped in the declared units (derived from the named arguments when the specification is a reference)")
-        ck.check("zip_longest(out_units, result)" in src and "res if unit is None else ureg.Quantity(res, unit)" in src, "G-PROV", "wraps.wrapper|tuple-results-rewrapped-elementwise", g.loc(), "tuple results re-wrapped element-wise", "tuple results are no longer re-wrapped element-wise")
-    ck.check("converter = _parse_wrap_args(args)" in norm(f.node), "G-PROV", "wraps|converter-from-declared-args", f.loc(), "converter built from the declared args", "wraps no longer builds its converter from the declared args")
+    d = returned_def(f, "decorator")
+    g = returned_def(d, "wrapper")
+    func = d.node.args.args[0].arg
+    ck.analysed(g)
+    va, kwa = (g.node.args.vararg.arg if g.node.args.vararg else "?"), (g.node.args.kwarg.arg if g.node.args.kwarg else "?")
+    # RESULT = FUNC(*CONV(ureg, sig, D[0], D[1], strict)[0], **CONV(...)[1]) with D = _apply_defaults(sig, *values, **kw)
+    dflt = f"_apply_defaults(_S, {va}, {kwa})"
+    conv_call = f"_C(ureg, _S, {dflt}[0], {dflt}[1], strict)"
+    calls = []
+    for x in walk_local(g.node):
+        if isinstance(x, ast.Call) and isinstance(x.func, ast.Name) and x.func.id == func and len(x.args) == 1 and isinstance(x.args[0], ast.Starred) and len(x.keywords) == 1 and x.keywords[0].arg is None:
+            a0, k0 = resolve(x.args[0].value, g.node), resolve(x.keywords[0].value, g.node)
+            b0, b1 = shape.match(conv_call + "[0]", a0), shape.match(conv_call + "[1]", k0)
+            if b0 is not None and b0 == b1 and is_signature(b0["_S"], g):
+                calls.append((x, b0))
+    ck.check(len(calls) == 1, "G-PROV", "wraps.wrapper|defaults-convert-call", g.loc(), "defaults -> conversion -> call with the converted values", "the wraps wrapper no longer applies defaults, converts and calls with the converted values")
+    CONV = calls[0][1]["_C"] if calls else "_C"
+    result = rnorm(calls[0][0], g.node) if calls else None
+    named = (conv_call.replace("_C", CONV).replace("_S", calls[0][1]["_S"]) + "[2]") if calls else None
+    is_result = lambda e: result is not None and rnorm(e, g.node) == result
+    # scalar return: `ret` is the (units, is_reference) pair; None units -> bare result, else Quantity(result, units or derived units)
+    qs = [x for x in walk_local(g.node) if isinstance(x, ast.Call) and norm(x.func) == "ureg.Quantity" and len(x.args) == 2 and is_result(x.args[0])]
+    unit_is_none = lambda a: isinstance(a, ast.Compare) and isinstance(a.ops[0], ast.Is) and norm(a.comparators[0]) == "None" and rnorm(a.left, g.node) in ("ret[0]",)
+    bare = [r for r in shape.returns_of(g.node) if is_result(r.value) and shape.holds_at(r, g.node, unit_is_none, True)]
+    ck.check(len(bare) >= 1 and all(shape.holds_at(x, g.node, unit_is_none, False) for x in qs), "G-PROV", "wraps.wrapper|none-return-spec-passes-through", g.loc(), "ret=None returns the bare result", "a None return specification no longer passes the result through (or a result is wrapped although the specification is None)")
+    is_reference = lambda a: rnorm(a, g.node) == "ret[1]"
+    gdefs = defs_of(g)
+
+    def unit_cases(e, at, depth=2):
+        """which cases the units expression `e` (evaluated at `at`) covers correctly: 'ref' = units derived from the
+        named values where the specification is known to be a reference, 'plain' = the declared units where it is
+        known not to be; both for the conditional expression.  None if it is anything else."""
+        u_ = resolve(e, g.node)
+        if isinstance(u_, ast.IfExp):
+            for p_, edge in shape.atoms(u_.test):
+                ref_side, plain_side = (u_.body, u_.orelse) if edge == "t" else (u_.orelse, u_.body)
+                if norm(p_) == "ret[1]" and shape.match("_replace_units(ret[0], _V)", ref_side) == {"_V": named} and norm(plain_side) == "ret[0]":
+                    return {"ref", "plain"}
+            return None
+        if shape.match("_replace_units(ret[0], _V)", u_) == {"_V": named}:
+            return {"ref"} if shape.holds_at(at, g.node, is_reference, True) else None
+        if norm(u_) == "ret[0]":
+            return {"plain"} if shape.holds_at(at, g.node, is_reference, False) else {"declared"}
+        if isinstance(u_, ast.Name) and depth > 0 and u_.id in gdefs.defs and u_.id not in gdefs.params:
+            # a name that starts as the declared units and is replaced by the derived units where the specification is a reference
+            out = set()
+            for v_, kind, st_ in gdefs.defs[u_.id]:
+                k = {"declared"} if (kind == "unpack0" and rnorm(v_, g.node) == "ret") else unit_cases(v_, st_, depth - 1) if kind == "assign" else None
+                if not k:
+                    return None
+                out |= k
+            return {"ref", "plain"} if out == {"declared", "ref"} else None
+        return None
+    cases = [unit_cases(x.args[1], x) for x in qs]
+    okq = bool(qs) and all(k_ and "declared" not in k_ for k_ in cases) and set().union(*[k_ for k_ in cases if k_]) == {"ref", "plain"}
+    ck.check(okq, "G-PROV", "wraps.wrapper|result-rewrapped-in-declared-or-derived-units", g.loc(qs[0]) if qs else g.loc(), "result wrapped in declared (or derived) units", "the result is no longer re-wrapped in the declared units (derived from the named arguments when the specification is a reference)")
+    # tuple results: ret.__class__(R if U is None else ureg.Quantity(R, U) for U, R in zip_longest(OUT, RESULT)) with
+    # OUT = (_replace_units(S, NAMED) if REF else S for (S, REF) in ret)
+    okt = False
+    for r in shape.returns_of(g.node):
+        v = resolve(r.value, g.node)
+        if shape.match("ret.__class__(_G)", v) is None or not isinstance(v.args[0], (ast.GeneratorExp, ast.ListComp)) or len(v.args[0].generators) != 1:
+            continue
+        ge = v.args[0]
+        t_, z_ = shape.match("(_U, _R)", ge.generators[0].target), shape.match("zip_longest(_O, _X)", ge.generators[0].iter)
+        if t_ is None or z_ is None or z_["_X"] != result or ge.generators[0].ifs or not isinstance(ge.elt, ast.IfExp):
+            continue
+        elt_ok = any(norm(p_) == f"{t_['_U']} is None" and norm(ge.elt.body if e_ == "t" else ge.elt.orelse) == t_["_R"] and norm(ge.elt.orelse if e_ == "t" else ge.elt.body) == f"ureg.Quantity({t_['_R']}, {t_['_U']})"
+                     for p_, e_ in shape.atoms(ge.elt.test))
+        o_ = ge.generators[0].iter.args[0]
+        out_ok = False
+        if isinstance(o_, (ast.GeneratorExp, ast.ListComp)) and len(o_.generators) == 1 and not o_.generators[0].ifs and norm(o_.generators[0].iter) == "ret" and isinstance(o_.elt, ast.IfExp):
+            s_ = shape.match("(_S, _F)", o_.generators[0].target)
+            out_ok = s_ is not None and any(norm(p_) == s_["_F"] and shape.match(f"_replace_units({s_['_S']}, _V)", o_.elt.body if e_ == "t" else o_.elt.orelse) == {"_V": named} and norm(o_.elt.orelse if e_ == "t" else o_.elt.body) == s_["_S"]
+                                            for p_, e_ in shape.atoms(o_.elt.test))
+        okt = okt or (elt_ok and out_ok)
+    ck.check(okt, "G-PROV", "wraps.wrapper|tuple-results-rewrapped-elementwise", g.loc(), "tuple results re-wrapped element-wise", "tuple results are no longer re-wrapped element-wise")
+    cdefs = closure_defs(g, CONV)
+    ck.check(bool(cdefs) and all(shape.match("_parse_wrap_args(args)", v) is not None for v, _ in cdefs), "G-PROV", "wraps|converter-from-declared-args", f.loc(), "converter built from the declared args", "wraps no longer builds its converter from the declared args")
     # every declared specification (each element of args, ret or each element of ret) is type-checked (str / Unit / None)
     # at decoration time, directly or through a local helper, and a wrong type raises TypeError
-    from .. import shape as _sh2
     tc = lambda a: isinstance(a, ast.Call) and call_name(a) == "isinstance" and len(a.args) == 2 and "ureg.Unit" in norm(a.args[1]) and "str" in norm(a.args[1])
     checked = set()
-    helpers = {g.name: g for g in f.module.all_functions if g.parent is f}
+    helpers = {h.name: h for h in f.module.all_functions if h.parent is f}
+
+    def what_is(e, at):
+        """the role of a checked expression: 'ret', or 'elements of args' / 'elements of ret' for a loop variable"""
+        if norm(e) in ("ret",):
+            return "ret"
+        it = enclosing_iteration(at, f.node)
+        if it is not None and isinstance(e, ast.Name) and norm(it[0]) == e.id and norm(it[1]) in ("args", "ret"):
+            return f"elements of {norm(it[1])}"
+        return norm(e)
+
     def type_checks(fn_node):
         out = []
-        for r in ast.walk(fn_node):
-            if isinstance(r, ast.Raise) and "TypeError" in norm(r) and _sh2.holds_at(r, fn_node, tc, False):
-                for a_, t_ in _sh2.facts_at(r, fn_node):
+        for r in walk_local(fn_node):
+            if isinstance(r, ast.Raise) and "TypeError" in norm(r) and shape.holds_at(r, fn_node, tc, False):
+                for a_, t_ in shape.facts_at(r, fn_node):
                     if tc(a_) and not t_:
-                        out.append(norm(a_.args[0]))
+                        out.append((a_.args[0], r))
         return out
-    for v in type_checks(f.node):
-        checked.add(v)
-    for nm, g in helpers.items():
-        params = [a_.arg for a_ in g.node.args.args]
-        for v in type_checks(g.node):
-            if v in params:
+    for v, r in type_checks(f.node):
+        checked.add(what_is(v, r))
+    for nm, h in helpers.items():
+        params = [a_.arg for a_ in h.node.args.args]
+        for v, r in type_checks(h.node):
+            if norm(v) in params:
                 for c_ in walk_local(f.node):
-                    if isinstance(c_, ast.Call) and isinstance(c_.func, ast.Name) and c_.func.id == nm and len(c_.args) > params.index(v):
-                        checked.add(norm(c_.args[params.index(v)]))
-    ck.check({"arg", "ret"} <= checked, "G-DOM", "wraps|specification-types-checked", f.loc(), "argument and return specifications must be str/Unit/None", f"the type check of the unit specifications is incomplete: only {sorted(checked)} are checked (args elements, ret and ret elements must be)")
-    # check wrapper
+                    if isinstance(c_, ast.Call) and isinstance(c_.func, ast.Name) and c_.func.id == nm and len(c_.args) > params.index(norm(v)):
+                        checked.add(what_is(c_.args[params.index(norm(v))], c_))
+    ck.check({"elements of args", "ret", "elements of ret"} <= checked, "G-DOM", "wraps|specification-types-checked", f.loc(), "argument and return specifications must be str/Unit/None", f"the type check of the unit specifications is incomplete: only {sorted(checked)} are checked (args elements, ret and ret elements must be)")
+
+    # ------------------------------------------------------------ check wrapper
     check_wrapper_order_rule(ck, ix)
     f = ix.func(RH, "check")
-    for g in [g for g in f.module.all_functions if g.name == "wrapper" and g.qualname.startswith(f.qualname)]:
-        ck.analysed(g)
-        cfg = cfg_of(g)
-        from .. import shape as _s3
-        is_none = lambda a: isinstance(a, ast.Compare) and isinstance(a.ops[0], ast.Is) and norm(a.comparators[0]) == "None" and norm(a.left) == "dim"
-        is_check = lambda a: isinstance(a, ast.Call) and call_name(a) == "check" and a.args and norm(a.args[0]) == "dim"
-        calls = [x for x in walk_local(g.node) if is_check(x)]
-        ck.floor("G-EXH", len(calls), 1, "dimension check calls in check.wrapper")
-        ok = all(_s3.holds_at(x, g.node, is_none, False) for x in calls)
-        for t in [t for t in walk_local(g.node) if isinstance(t, ast.If)]:
-            for p_, edge in _s3.atoms(t.test):
-                if is_none(p_):
-                    side = t.body if edge == "t" else t.orelse
-                    ok = ok and not any(isinstance(x, (ast.Break, ast.Return, ast.Raise)) for st in side for x in ast.walk(st))
-        ck.check(ok, "G-EXH", "check.wrapper|none-skips-this-argument-only", g.loc(), "a None dimension skips that argument only", "a None dimension is checked, or aborts the remaining checks (break/return/raise), instead of just skipping its argument")
-        failed = _s3.guard_edges(cfg, is_check, want=False)
-        ck.check(bool(failed), "G-DOM", "check.wrapper|failed-check-tested", g.loc(), "the outcome of .check(dim) is tested", "the outcome of .check(dim) is no longer tested")
+    d = returned_def(f, "decorator")
+    g = returned_def(d, "wrapper")
+    func = d.node.args.args[0].arg
+    ck.analysed(g)
+    cfg = cfg_of(g)
+    # the checking loop: `for DIM, VALUE in zip(<declared dimensions>, <packed arguments>)`
+    zl = [l for l in walk_local(g.node) if isinstance(l, ast.For) and shape.match("zip(_D, _A)", resolve(l.iter, g.node)) is not None and shape.match("(_D, _V)", l.target) is not None]
+    ck.floor("G-EXH", len(zl), 1, "loop over zip(declared dimensions, arguments) in check.wrapper")
+    for l in zl:
+        DIM, VAL = (t_.id for t_ in l.target.elts)
+        is_none = _is_none_test(DIM)
+        is_check = lambda a: isinstance(a, ast.Call) and call_name(a) == "check" and a.args and norm(a.args[0]) == DIM
+        calls = [x for x in ast.walk(l) if is_check(x)]
+        ck.check(bool(calls) and all(shape.match(f"ureg.Quantity({VAL}).check({DIM})", resolve(x, g.node)) is not None for x in calls), "G-DOM", "check.wrapper|dimension-check-present", g.loc(l), "arguments are checked with Quantity.check(dim)", "the wrapper no longer checks arguments with .check(dim)")
+        ok = all(shape.holds_at(x, g.node, is_none, False) for x in calls)
+        # where the dimension is known to be None nothing may leave the loop
+        ok = ok and not any(isinstance(x, (ast.Break, ast.Return, ast.Raise)) and shape.holds_at(x, g.node, is_none, True) for x in ast.walk(l))
+        ck.check(ok, "G-EXH", "check.wrapper|none-skips-this-argument-only", g.loc(l), "a None dimension skips that argument only", "a None dimension is checked, or aborts the remaining checks (break/return/raise), instead of just skipping its argument")
+        failed = shape.guard_edges(cfg, is_check, want=False)
+        ck.check(bool(failed), "G-DOM", "check.wrapper|failed-check-tested", g.loc(l), "the outcome of .check(dim) is tested", "the outcome of .check(dim) is no longer tested")
         for (t, lab) in failed:
             p = edge_leads_only_to_raise(cfg, t, lab)
             ck.check(p is None, "G-DOM", "check.wrapper|failed-check-raises", g.loc(cfg.nodes[t].ast), "failed check raises DimensionalityError", "a failed dimension check does not raise", witness(cfg, p))
-        ck.check(bool(calls), "G-DOM", "check.wrapper|dimension-check-present", g.loc(), "arguments are checked with Quantity.check(dim)", "the wrapper no longer checks arguments with .check(dim)")
-        ck.check("return func(*args, **kwargs)" in norm(g.node), "G-PROV", "check.wrapper|original-arguments-forwarded", g.loc(), "the original arguments are forwarded unchanged", "check no longer forwards the original arguments")
-    src = norm(f.node)
-    from .. import shape as _s4
+    va, kwa = (g.node.args.vararg.arg if g.node.args.vararg else "?"), (g.node.args.kwarg.arg if g.node.args.kwarg else "?")
+    fwd = [r for r in shape.returns_of(g.node) if rnorm(r.value, g.node) == f"{func}(*{va}, **{kwa})"]
+    ck.check(bool(fwd) and not find_stores(g.node, va) and not find_stores(g.node, kwa), "G-PROV", "check.wrapper|original-arguments-forwarded", g.loc(), "the original arguments are forwarded unchanged", "check no longer forwards the original arguments")
     okd = False
     for lc in [x for x in walk_local(f.node) if isinstance(x, ast.ListComp) and norm(x.generators[0].iter) == "args" and isinstance(x.elt, ast.IfExp)]:
         v = norm(lc.generators[0].target)
-        for p_, edge in _s4.atoms(lc.elt.test):
+        for p_, edge in shape.atoms(lc.elt.test):
             none_side, other_side = (lc.elt.body, lc.elt.orelse) if edge == "t" else (lc.elt.orelse, lc.elt.body)
             okd = okd or (norm(p_) == f"{v} is None" and norm(none_side) == "None" and norm(other_side) == f"ureg.get_dimensionality({v})")
     ck.check(okd, "G-PROV", "check|declared-dimensions", f.loc(), "declared dimensions parsed, None kept", "check no longer parses each declared dimension with ureg.get_dimensionality (keeping None)")
     return EXPLANATION
+
+
+def _eval3(e, env):
+    """Kleene evaluation of a condition over the atoms in `env` (text of the positive atom -> bool); None = unknown"""
+    if isinstance(e, ast.UnaryOp) and isinstance(e.op, ast.Not):
+        v = _eval3(e.operand, env)
+        return None if v is None else not v
+    if isinstance(e, ast.BoolOp):
+        vs = [_eval3(v, env) for v in e.values]
+        if isinstance(e.op, ast.And):
+            return False if any(v is False for v in vs) else True if all(v is True for v in vs) else None
+        return True if any(v is True for v in vs) else False if all(v is False for v in vs) else None
+    for pos, edge in shape.atoms(e):
+        if norm(pos) in env:
+            return env[norm(pos)] if edge == "t" else not env[norm(pos)]
+    return None
+
+
+def _consistent(fs, env):
+    """the assignment `env` of the atoms does not contradict the facts fs = [(condition, truth)]"""
+    return all(_eval3(a, env) in (None, t) for a, t in fs)
+
+
+def facts_equal(x, y, fn):
+    """two nodes execute under the same known conditions (same branch)"""
+    fx = {(norm(a), t) for a, t in shape.facts_at(x, fn)}
+    fy = {(norm(a), t) for a, t in shape.facts_at(y, fn)}
+    return fx == fy
